@@ -39,8 +39,13 @@ def seq_scenario(seq, mode="folder", nested=False, alter=None, restore=None, see
 def parse_manifests(asc):
     """asc: {relpath: bytes} of ascmhl folders -> {history dir: [(number, name, manifest dict)]} ascending"""
     out = {}
+    # (generations = the manifests the chain file of their folder lists; an unlisted leftover is not one)
+    from .. import oracles as O
+    listed = {(h, g[1]) for h, d in O.histories(asc).items() for g in d["gens"]}
     for p, b in asc.items():
         if not p.endswith(".mhl"):
+            continue
+        if (os.path.dirname(os.path.dirname(p)), os.path.basename(p)) not in listed:
             continue
         hist = os.path.dirname(os.path.dirname(p))
         name = os.path.basename(p)
